@@ -253,3 +253,84 @@ Proof.
   intros Hs HP Hne. unfold vmedian. rewrite nhalf_xr.
   rewrite (vquantile_spec xs (1 / 2) Linear s); try assumption; [reflexivity|lra].
 Qed.
+
+(* ---- vpercentile_of -------------------------------------------------------------------------------- *)
+Definition count_lt (sc : R) (l : list R) : nat := length (filter (fun x => if Rlt_dec x sc then true else false) l).
+Definition count_eq (sc : R) (l : list R) : nat := length (filter (fun x => if Req_EM_T x sc then true else false) l).
+
+(* rank: mean of the percentage ranks of the matching scores, L/N when nothing matches;
+   weak: proportion of values <= score; strict: proportion of values < score *)
+Definition percentile_spec (l : list R) (sc : R) (m : pmethod) : R :=
+  let L := INR (count_lt sc l) in
+  let E := INR (count_eq sc l) in
+  let N := INR (length l) in
+  match m with
+  | PRank => if (count_eq sc l =? 0)%nat then L / N else (L + (E + 1) / 2) / N
+  | PWeak => (L + E) / N
+  | PStrict => L / N
+  end.
+
+Lemma pct_counts_spec (sc : R) (xs : list XR) (l0 e0 t0 : nat) :
+  fold_left (fun (c : nat * nat * nat) v =>
+                 let '(l, e, t) := c in
+                 if is_none (IsNone := IsNoneXR) v then c else
+                 let x := unwrap (IsNone := IsNoneXR) v in
+                 if nltb x (Some sc) then (S l, e, S t)
+                 else if neqb x (Some sc) then (l, S e, S t)
+                 else (l, e, S t)) xs (l0, e0, t0)
+  = ((l0 + count_lt sc (valid xs))%nat, (e0 + count_eq sc (valid xs))%nat, (t0 + length (valid xs))%nat).
+Proof.
+  revert l0 e0 t0. induction xs as [|[x|] xs IH]; intros l0 e0 t0.
+  - cbn. (apply f_equal2; [apply f_equal2|]; lia).
+  - cbn [fold_left]. change (is_none (IsNone := IsNoneXR) (Some x)) with false. cbn iota.
+    change (unwrap (IsNone := IsNoneXR) (Some x)) with (Some x).
+    change (nltb (Some x) (Some sc)) with (xltb (Some x) (Some sc)).
+    change (neqb (Some x) (Some sc)) with (xeqb (Some x) (Some sc)). cbn [xltb xeqb].
+    unfold count_lt, count_eq. cbn [valid flat_map app filter]. fold (valid xs).
+    destruct (Rlt_dec x sc) as [Hlt|Hge].
+    + destruct (Req_EM_T x sc); [lra|]. rewrite IH. unfold count_lt, count_eq. cbn [length].
+      (apply f_equal2; [apply f_equal2|]; lia).
+    + destruct (Req_EM_T x sc).
+      * rewrite IH. unfold count_lt, count_eq. cbn [length]. (apply f_equal2; [apply f_equal2|]; lia).
+      * rewrite IH. unfold count_lt, count_eq. cbn [length]. (apply f_equal2; [apply f_equal2|]; lia).
+  - cbn [fold_left]. change (is_none (IsNone := IsNoneXR) None) with true. cbn iota. apply IH.
+Qed.
+
+Lemma vpercentile_of_spec (xs : list XR) (sc : R) (m : pmethod) :
+  valid xs <> [] ->
+  vpercentile_of (Some sc) m xs = Some (percentile_spec (valid xs) sc m).
+Proof.
+  intros Hne. unfold vpercentile_of.
+  change (is_none (IsNone := IsNoneXR) (Some sc)) with false. cbn iota.
+  change (unwrap (IsNone := IsNoneXR) (Some sc)) with (Some sc).
+  unfold pct_counts. rewrite pct_counts_spec. cbn [Nat.add].
+  set (Lc := count_lt sc (valid xs)). set (Ec := count_eq sc (valid xs)).
+  destruct (length (valid xs)) as [|n1] eqn:Hlen; [destruct (valid xs); [contradiction|discriminate]|].
+  cbn [Nat.eqb].
+  assert (HN : INR (S n1) <> 0) by (rewrite S_INR; pose proof (pos_INR n1); lra).
+  unfold percentile_spec. fold Lc Ec. rewrite Hlen.
+  destruct m.
+  - destruct (1 <? Ec)%nat eqn:E1.
+    + apply Nat.ltb_lt in E1. replace (Ec =? 0)%nat with false by (symmetry; apply Nat.eqb_neq; lia).
+      rewrite !xofnat, nhalf_xr, xmul_some, xdiv_some by exact HN. do 2 f_equal.
+      replace (Lc + 1 + (Lc + 1 + (Ec - 1)))%nat with (Lc + Lc + Ec + 1)%nat by lia.
+      rewrite !plus_INR. cbn [INR]. field; exact HN.
+    + apply Nat.ltb_ge in E1. rewrite !xofnat, xdiv_some by exact HN.
+      destruct Ec as [|[|?]]; [| |lia].
+      * cbn [Nat.eqb]. rewrite Nat.add_0_r. reflexivity.
+      * cbn [Nat.eqb]. do 2 f_equal. rewrite plus_INR. cbn [INR]. field; exact HN.
+  - rewrite !xofnat, xdiv_some by exact HN. rewrite plus_INR. reflexivity.
+  - rewrite !xofnat, xdiv_some by exact HN. reflexivity.
+Qed.
+
+Lemma vpercentile_of_null_score (xs : list XR) (m : pmethod) : vpercentile_of None m xs = None.
+Proof. reflexivity. Qed.
+
+Lemma vpercentile_of_all_null (xs : list XR) (sc : XR) (m : pmethod) :
+  valid xs = [] -> vpercentile_of sc m xs = None.
+Proof.
+  intros Hv. destruct sc as [sc|]; [|reflexivity]. unfold vpercentile_of.
+  change (is_none (IsNone := IsNoneXR) (Some sc)) with false. cbn iota.
+  change (unwrap (IsNone := IsNoneXR) (Some sc)) with (Some sc).
+  unfold pct_counts. rewrite pct_counts_spec, Hv. reflexivity.
+Qed.
